@@ -7,7 +7,7 @@ names = sys.argv[1:] or [k for k in reg if not k.startswith('loop:')]
 for n in names:
     t0 = time.time()
     res = verify(reg[n], reg)
-    bad = [o for o in res.obls if o.verdict != 'unsat']
+    bad = [o for o in res.obls if o.verdict != 'unsat' and o.kind!='control']
     print(f"{n}: paths={res.paths} feasible={res.feasible_paths} outcomes={res.outcomes} obls={len(res.obls)} notok={len(bad)} {time.time()-t0:.1f}s inlined={sorted(res.inlined)}")
     seen=set()
     for o in bad:
